@@ -631,7 +631,11 @@ def _loop_step_summary(ix, key):
     if b is None:
         return None
     sym = mir.Sym(b, ix)
-    outs = [l for l in range(len(b.locals)) if b.local_name(l) == "output"]
+    ret0 = sym.local(0)
+    if ret0[0] != "var":
+        return None
+    acc = ret0[1]  # the accumulator is the variable that is returned, whatever it is called
+    outs = [l for l in range(len(b.locals)) if b.local_name(l) == acc]
     if len(outs) != 1:
         return None
     defs = b.defs().get(outs[0], [])
@@ -653,10 +657,11 @@ def _loop_step_summary(ix, key):
         if isinstance(x, tuple) and x[0] == "agg" and isinstance(x[1], str) and x[1].endswith("ops::Range") and len(x[3]) == 2:
             ok = x[3][0][:2] == ("const", 0) and x[3][1] == ("arg", "n")
     ret = sym.local(0)
-    if not ok or ret != ("var", "output"):
+    if not ok or ret != ("var", acc):
         return None
     rv = step[0][2]
-    return sym.rvalue(rv) if rv.get("k") != "call" else ("call", strip_generics(mir.callee_name(rv["t"])), tuple(sym.operand(a) for a in rv["t"]["args"]))
+    st = sym.rvalue(rv) if rv.get("k") != "call" else ("call", strip_generics(mir.callee_name(rv["t"])), tuple(sym.operand(a) for a in rv["t"]["args"]))
+    return acc, st
 
 
 def fold_tree(ix, e, env, depth=0):
@@ -762,8 +767,9 @@ def fold_tree(ix, e, env, depth=0):
             x, n = fold_tree(ix, args[0], env, depth + 1), fold_tree(ix, args[1], env, depth + 1)
             if not isinstance(n, int) or n > 64:
                 raise Undef("step count")
+            acc, st = step
             for _ in range(n):
-                x = fold_tree(ix, step, {"output": x}, depth + 1)
+                x = fold_tree(ix, st, {acc: x}, depth + 1)
             return x
         cb = ix.bodies.get(c)
         if cb is not None and cb.kind == "fn" and not any(cb.in_loop(blk.idx) for blk in cb.blocks if not blk.cleanup and blk.idx in cb.live_blocks()):
@@ -808,7 +814,12 @@ def rule_rays(ctx):
     for l in range(len(b.locals)):
         if b.local_name(l) == "iter":
             it = sym.expand_var(("var", "iter"))
-    ok_loop = it is not None and "enumerate" in expr_str(it) and "iter_mut" in expr_str(it) and "rays" in expr_str(it)
+    tab = None
+    if it is not None:
+        for x in walk(it):
+            if isinstance(x, tuple) and x[0] == "var":
+                tab = [b.locals[l]["ty"] for l in range(len(b.locals)) if b.local_name(l) == x[1]]
+    ok_loop = it is not None and "enumerate" in expr_str(it) and "iter_mut" in expr_str(it) and bool(tab) and tab[0].replace(" ", "").endswith(";8];64]") and sym.local(0) != ("unknown",)
     ctx.check(ok_loop, "rays:all-squares", "the loop visits rays[0..64] with its index", b.where(0), bad_what="the fill loop of init_rays is not `for (idx, r) in rays.iter_mut().enumerate()` (%s)" % (expr_str(it)[:80] if it else None))
     idx_names = [n for n in ("idx",) if any(b.local_name(l) == n for l in range(len(b.locals)))]
     for d in sorted(G.DIRS):
